@@ -5,6 +5,7 @@ package main
 import (
 	"fmt"
 	"go/token"
+	"go/types"
 
 	"golang.org/x/tools/go/ssa"
 )
@@ -16,8 +17,34 @@ func checkC12(c *Ctx) {
 	c.Rule("C12.R1", "full-width, checked tag comparison: unwrap returns 0 only through the ==1 edge of a constant-time comparison of the whole computed tag (filled by Vatte with TagSize*8 bits) with the unsliced tag argument; Open hands it exactly the last TagSize bytes under total >= TagSize and turns a non-zero result into (nil, error) (E1 + E2 facts)")
 	c.Rule("C12.R2", "no aliasing into wrap/unwrap: the data and tag buffers Seal/Open pass down are slices of a buffer allocated in that call (make + copy), never of a caller argument (def-use roots)")
 	c.Rule("C12.R3", "byte-granular state writers preserve the rest of the lane: in snp.StateSetByte / StateAddByte / cyclist.stateAddByte the value stored to state[lane] depends on the previous value of that lane (read-modify-write); RefMaskInitialize hands the whole key to StateSetBytes and pads at len(key) (def-use)")
+	c.Rule("C12.R5", "no shift drops a byte on its way into the state: in every function of snp / kravatte / cyclist that stores into a lane of the [25]uint64 state, each shift by a variable count is provably below the width of the shifted value; Go defines an over-wide shift as 0, so a miscounted byte position silently loses key or data bytes instead of trapping (E2 obligations)")
 	c.Rule("C12.R4", "session parity stays in step: wrap and unwrap flip s.e exactly once on every path that returns 0 (the two ends of a session run one wrap against one unwrap per message; a path of one of them that skips the flip, for one class of messages, makes every later message of the session fail to open) (E1 counting, sibling agreement)")
 	c12Parity(c)
+	// the byte -> lane packers: functions of snp / kravatte / cyclist that store into a lane of a [25]uint64 state
+	var packers []*ssa.Function
+	for _, f := range pkgFuncs(P, false, "snp", "kravatte", "cyclist") {
+		stores := false
+		eachInstr(f, func(ins ssa.Instruction) {
+			st, ok := ins.(*ssa.Store)
+			if !ok {
+				return
+			}
+			if ia, ok := st.Addr.(*ssa.IndexAddr); ok {
+				t := ia.X.Type().Underlying()
+				if pt, ok := t.(*types.Pointer); ok {
+					t = pt.Elem().Underlying()
+				}
+				if at, ok := t.(*types.Array); ok && at.Len() == 25 {
+					stores = true
+				}
+			}
+		})
+		if stores {
+			packers = append(packers, f)
+		}
+	}
+	rangeRule(c, "C12.R5", packers, shiftObs,
+		"a shift count may reach the width of the shifted value, and the shift then yields 0: the byte it was to place in the lane is dropped", "variable shifts in the byte-to-lane packers", 4)
 	c.Decides("that a forged tag cannot be accepted through a narrow or unchecked comparison, that callers' overlapping buffers are not corrupted, that setting the padding byte cannot erase key bytes")
 	c.NotDecided("conformance of Kravatte-SANSE outputs with the specification for all keys and lengths (numerical statement)")
 
